@@ -792,6 +792,51 @@ def draw_registered(F, R, rid="C08-R16"):
             R.ok(rid, key, site, "%d register_draw call(s) cover all %d Ok site(s)" % (len(regs), len(oks)))
     R.floor(rid, 2)
 
+
+def estimator_restart_whole(F, R, rid="C08-R17"):
+    """count, mean and the accumulated squared deviations of a running estimator are one value: restarted together or not at all."""
+    R.rule(rid, "a running-variance estimator is restarted as a whole: `count` is written only as `count + 1` (add_sample) or as part of a freshly constructed "
+                "estimator. A body that stores anything else into `count` (a reset that keeps the allocations) must overwrite the accumulator `variance` in the same "
+                "body - add_sample's first-sample branch replaces the mean only and relies on `variance` being the zero array of `new()`, so a count-only reset "
+                "carries the squared deviations of the discarded samples into the new estimate (scales that are the statistics of no set of draws)")
+    n = 0
+    for b in sorted(F.bodies.values(), key=lambda x: x.path):
+        if not b.mir or "::tests::" in b.path or K.is_std_derive(b):
+            continue
+        stores = []
+        wrote_var = False
+        for bi, blk in enumerate(b.blocks):
+            if blk["cleanup"]:
+                continue
+            for st in blk["stmts"]:
+                if st["k"] != "assign":
+                    continue
+                for pl in ([st["pl"]] + ([st["rv"]["pl"]] if st["rv"]["k"] in ("ref", "rawptr") and st["rv"].get("bk") in ("mut", "Mut") else [])):
+                    fl = [e for e in pl["p"] if isinstance(e, dict) and "f" in e]
+                    if not fl or "RunningVariance" not in (fl[-1].get("of") or ""):
+                        continue
+                    if fl[-1].get("n") == "variance":
+                        wrote_var = True
+                    if fl[-1].get("n") == "count" and pl is st["pl"]:
+                        stores.append((bi, st))
+        for bi, st in stores:
+            n += 1
+            rv = st["rv"]
+            txt = vt_str(b.value(rv["op"])) if rv["k"] == "use" else rv["k"]
+            key = "%s:count" % b.path
+            site = "%s @%s" % (b.path, loc(st["span"]))
+            if "self.count AddWithOverflow 1" in txt.replace("(*", "").replace(")", "") or txt.replace(" ", "") in ("(*self.countAddWithOverflow1).0",):
+                R.ok(rid, key, site, "count := count + 1")
+            elif wrote_var:
+                R.ok(rid, key, site, "count := %s together with a write of the accumulator" % txt[:40])
+            else:
+                R.bad(rid, key, site, "count := %s without overwriting `variance`: the next add_sample restarts the mean only, the squared deviations of the "
+                      "discarded samples stay in the estimate" % txt[:40])
+    R.info(rid, "stores into RunningVariance.count: %d" % n)
+    if n < 1:
+        R.missing(rid, "a store into RunningVariance.count (add_sample; found %d)" % n)
+
+
 def run(F, R, config=None):
     r1_r3(F, R)
     r7(F, R)
@@ -807,6 +852,7 @@ def run(F, R, config=None):
     r13(F, R)
     paired_estimators(F, R)
     draw_registered(F, R)
+    estimator_restart_whole(F, R)
     from . import c02
     K.borrow_rule(R, lambda sub: c02.r10(F, sub), "C08-R10", "no logarithm of a product reduction in the transformation / math code: finite positive scales and "
                   "eigenvalues give a finite log-determinant (C02-R10 analysis)", only_rules={"C02-R10"})
